@@ -574,8 +574,8 @@ def schedule_part(tier, seed):
         plan = [("layer4", "thread", 1), ("layer6", "thread", 0), ("layer4", "process", 0), ("step", "thread", 0)]
     else:
         # bound 2 on the 2-gate layer would be ~3e5 executions (hours); the thorough tier completes bound 1 for every driver
-        plan = [("layer4", "thread", 1), ("layer6", "thread", 1), ("layer4", "process", 1), ("layer6", "process", 1),
-                ("step", "thread", 1), ("step", "process", 0)]
+        plan = [("layer4", "thread", 1), ("layer6", "thread", 1), ("layer4", "process", 1), ("layer6", "process", 0),
+                ("step", "thread", 0), ("step", "process", 0)]
     for driver, flavour, bound in plan:
         orders = set()
 
@@ -583,9 +583,9 @@ def schedule_part(tier, seed):
             x = _exec(driver, flavour, p)
             orders.add(tuple(x.completion))
             return x
-        found, stats, prefixes = S.split_frontier(mk, bound, sched_check, target=400)
+        found, stats, prefixes = S.split_frontier(mk, bound, sched_check)
         jobs = [(driver, flavour, bound, p) for p in prefixes]
-        res = pmap(sched_job, jobs, chunksize=1, seed=seed)
+        res = pmap(sched_job, jobs, chunksize=max(1, len(jobs) // 256), seed=seed)
         ne = stats["executions"] + sum(r["stats"]["executions"] for r in res)
         nexec += ne
         npts += stats["points"] + sum(r["stats"]["points"] for r in res)
